@@ -221,7 +221,7 @@ var nativeMods = map[string]func(ms *modSet, c *ssa.CallCommon){
 var nativePure = map[string]bool{
 	"http.CanonicalHeaderKey": true, "textproto.CanonicalMIMEHeaderKey": true, "strings.ToLower": true, "strings.Contains": true,
 	"strings.HasPrefix": true, "strings.CutPrefix": true, "strings.TrimPrefix": true, "(http.Header).Get": true,
-	"(http.Header).Values": true, "math.Log2": true, "(time.Duration).Nanoseconds": true, "rand.Float64": true,
+	"(http.Header).Values": true, "math.Log2": true, "fmt.Sprintf": true, "fmt.Errorf": true, "(time.Duration).Nanoseconds": true, "rand.Float64": true,
 }
 
 func (p *Program) modCall(ms *modSet, fn *ssa.Function, c *ssa.CallCommon, x *Exec, stack map[*ssa.Function]bool, kind string) {
